@@ -300,6 +300,13 @@ class Gen:
         name = self.fresh("p")
         mark = r.choice(["", "", "!", "?"])
         rhs = self.prim() if prim_only else self.schema(env, None, depth)
+        if not mark and not prim_only and self.rich_ann and r.random() < 0.25:
+            # the requirement stated on the property's schema instead of a mark
+            self.feat("schema-level-required")
+            if rhs[0] == "ann":
+                rhs = ["ann", rhs[1], dict(rhs[2], required=r.random() < 0.7)]
+            elif rhs[0] in ATOMIC:
+                rhs = ["ann", rhs, {"required": r.random() < 0.7}]
         e = ["prop", name, mark, rhs]
         if mark:
             self.feat("prop-mark")
@@ -328,7 +335,7 @@ class Gen:
                 if pn and r.random() < 0.3 and False:
                     segs.append(("var", self.varref(r.choice(pn))))
                 else:
-                    segs.append(("var", ["prop", self.fresh("v"), "", ["prim", r.choice(PRIMS)]]))
+                    segs.append(("var", ["prop", self.fresh("v"), r.choice(["", "", "?", "!"]), ["prim", r.choice(PRIMS)]]))
             else:
                 segs.append(("lit", r.choice(["a", "b", "items", "x-y", "v1"])))
         p = None
